@@ -53,3 +53,126 @@ package node
 //@   requires nsm != nil && nsMetasOK(nsm) && kvNodesOK(nsm)
 //@   ensures result1 == nil ==> in(nsBaseName, nsm.nsMetas)
 //@   ensures result1 == nil ==> result0 == nsm.kvNodes[nsDesp(nsBaseName, int(murmur3sum(pk)) % nsm.nsMetas[nsBaseName].PartitionNum)]
+
+//@ property C19
+
+//@ noeffect (*github.com/youzan/ZanRedisDB/node.raftNode).Infof (*github.com/youzan/ZanRedisDB/node.raftNode).Errorf (*github.com/youzan/ZanRedisDB/node.raftNode).Debugf (github.com/youzan/ZanRedisDB/raft/raftpb.Entry).String (*github.com/youzan/ZanRedisDB/raft/raftpb.Entry).String
+
+//@ func (ss *SyncedState) IsNewer(other *SyncedState) bool
+//@   requires ss != nil && other != nil
+//@   ensures result <==> (ss.SyncedTerm >= other.SyncedTerm && ss.SyncedIndex >= other.SyncedIndex)
+//@ func (ss *SyncedState) IsSame(other *SyncedState) bool
+//@   requires ss != nil && other != nil
+//@   ensures result <==> (ss.SyncedTerm == other.SyncedTerm && ss.SyncedIndex == other.SyncedIndex)
+//@ func (ss *SyncedState) IsNewer2(term uint64, index uint64) bool
+//@   requires ss != nil
+//@   ensures result <==> (ss.SyncedTerm >= term && ss.SyncedIndex >= index)
+
+//@ spec sameSS(a SyncedState, b SyncedState) bool = a.SyncedTerm == b.SyncedTerm && a.SyncedIndex == b.SyncedIndex && a.Timestamp == b.Timestamp
+//@ spec rssOK(rss *remoteSyncedStateMgr) bool = rss != nil && rss.remoteSyncedStates != nil
+
+// the synced position of a source cluster is replaced wholesale; every other cluster's entry is untouched
+//@ func (rss *remoteSyncedStateMgr) UpdateState(name string, state SyncedState)
+//@   requires rssOK(rss)
+//@   ensures in(name, rss.remoteSyncedStates) && sameSS(rss.remoteSyncedStates[name], state)
+//@   ensures forall k string :: k != name ==> (in(k, rss.remoteSyncedStates) <==> old(in(k, rss.remoteSyncedStates))) && sameSS(rss.remoteSyncedStates[k], old(rss.remoteSyncedStates[k]))
+//@   ensures rss.remoteSyncedStates == old(rss.remoteSyncedStates)
+//@   modifies rss.remoteSyncedStates
+
+//@ func (rss *remoteSyncedStateMgr) GetState(name string) (SyncedState, bool)
+//@   requires rss != nil
+//@   ensures result1 <==> in(name, rss.remoteSyncedStates)
+//@   ensures result1 ==> sameSS(result0, rss.remoteSyncedStates[name])
+
+// Clone is a copy: same keys and values, and a fresh map (later updates of the live map do not change a
+// snapshot that was taken before them)
+//@ func (rss *remoteSyncedStateMgr) Clone() map[string]SyncedState
+//@   requires rss != nil
+//@   ensures fresh(result) && result != nil
+//@   ensures forall k string :: (in(k, result) <==> in(k, rss.remoteSyncedStates)) && (in(k, result) ==> sameSS(result[k], rss.remoteSyncedStates[k]))
+//@ loop 1
+//@   invariant fresh(clone) && clone != nil
+//@   invariant forall k string :: visited(k) ==> in(k, clone) && sameSS(clone[k], rss.remoteSyncedStates[k])
+//@   invariant forall k string :: in(k, clone) ==> visited(k) && in(k, rss.remoteSyncedStates)
+
+// RestoreStates replaces the whole table by a copy of the snapshot's table
+//@ func (rss *remoteSyncedStateMgr) RestoreStates(ss map[string]SyncedState)
+//@   requires rss != nil
+//@   ensures fresh(rss.remoteSyncedStates) && rss.remoteSyncedStates != nil
+//@   ensures forall k string :: (in(k, rss.remoteSyncedStates) <==> in(k, ss)) && (in(k, ss) ==> sameSS(rss.remoteSyncedStates[k], ss[k]))
+//@   modifies rss.remoteSyncedStates
+//@ loop 1
+//@   invariant fresh(rss.remoteSyncedStates) && rss.remoteSyncedStates != nil && rss.remoteSyncedStates != ss
+//@   invariant forall k string :: visited(k) ==> in(k, rss.remoteSyncedStates) && sameSS(rss.remoteSyncedStates[k], ss[k])
+//@   invariant forall k string :: in(k, rss.remoteSyncedStates) ==> visited(k) && in(k, ss)
+
+//@ spec ndOK(nd *KVNode) bool = nd != nil && nd.rn != nil && rssOK(nd.remoteSyncedStates)
+
+// duplicate filter: an entry at or below the synced position of its source cluster was applied already
+//@ func (nd *KVNode) isAlreadyApplied(reqList BatchInternalRaftRequest) bool
+//@   requires ndOK(nd)
+//@   ensures result <==> (in(reqList.OrigCluster, nd.remoteSyncedStates.remoteSyncedStates) && (reqList.OrigTerm < nd.remoteSyncedStates.remoteSyncedStates[reqList.OrigCluster].SyncedTerm || reqList.OrigIndex <= nd.remoteSyncedStates.remoteSyncedStates[reqList.OrigCluster].SyncedIndex))
+
+//@ func (nd *KVNode) isContinueCommit(reqList BatchInternalRaftRequest) bool
+//@   requires ndOK(nd)
+//@   requires forall k string :: in(k, nd.remoteSyncedStates.remoteSyncedStates) ==> nd.remoteSyncedStates.remoteSyncedStates[k].SyncedIndex < 18446744073709551615
+//@   ensures result <==> !(in(reqList.OrigCluster, nd.remoteSyncedStates.remoteSyncedStates) && reqList.OrigIndex > nd.remoteSyncedStates.remoteSyncedStates[reqList.OrigCluster].SyncedIndex + 1)
+
+//@ noeffect (*github.com/youzan/ZanRedisDB/node.InternalRaftRequest).String (github.com/youzan/ZanRedisDB/node.InternalRaftRequest).String
+
+// snapshot-apply bookkeeping lives in a second table; these never touch the synced positions
+//@ func (rss *remoteSyncedStateMgr) AddApplyingSnap(name string, state SyncedState) (*SnapApplyStatus, bool)
+//@   trusted bookkeeping of remote snapshot transfers (wall-clock timeouts); only the applying-snapshot table changes
+//@   ensures rss.remoteSnapshotsApplying == old(rss.remoteSnapshotsApplying)
+//@   modifies rss.remoteSnapshotsApplying, alloftype(SnapApplyStatus)
+//@ func (rss *remoteSyncedStateMgr) UpdateApplyingSnapStatus(name string, ss SyncedState, status int)
+//@   trusted bookkeeping of remote snapshot transfers; only the applying-snapshot table changes
+//@   ensures rss.remoteSnapshotsApplying == old(rss.remoteSnapshotsApplying)
+//@   modifies rss.remoteSnapshotsApplying, alloftype(SnapApplyStatus)
+
+//@ extern encoding/json.Unmarshal func(data []byte, v interface{}) error
+//@   modifies pointee(v)
+
+//@ func (nd *KVNode) preprocessRemoteSnapApply(reqList BatchInternalRaftRequest) (bool, bool)
+//@   requires ndOK(nd)
+//@   modifies nd.remoteSyncedStates.remoteSnapshotsApplying, alloftype(SnapApplyStatus)
+//@ loop 1
+//@   invariant nd.remoteSyncedStates == old(nd.remoteSyncedStates) && nd.rn == old(nd.rn)
+
+//@ spec M(nd *KVNode) map[string]SyncedState = nd.remoteSyncedStates.remoteSyncedStates
+
+// The synced position moves only to the entry's own (OrigTerm, OrigIndex), only when the entry was not a
+// snapshot transfer and the state machine did not answer "ignored".
+//@ func (nd *KVNode) postprocessRemoteApply(reqList BatchInternalRaftRequest, isRemoteSnapTransfer bool, isRemoteSnapApply bool, retErr error)
+//@   requires ndOK(nd)
+//@   ensures (!(reqList.OrigTerm == 0 && reqList.OrigIndex == 0) && !isRemoteSnapTransfer && retErr != errIgnoredRemoteApply) ==> in(reqList.OrigCluster, M(nd)) && M(nd)[reqList.OrigCluster].SyncedTerm == reqList.OrigTerm && M(nd)[reqList.OrigCluster].SyncedIndex == reqList.OrigIndex && M(nd)[reqList.OrigCluster].Timestamp == reqList.Timestamp
+//@   ensures forall k string :: (k != reqList.OrigCluster || (reqList.OrigTerm == 0 && reqList.OrigIndex == 0) || isRemoteSnapTransfer || retErr == errIgnoredRemoteApply) ==> (in(k, M(nd)) <==> old(in(k, M(nd)))) && sameSS(M(nd)[k], old(M(nd)[k]))
+//@   ensures nd.remoteSyncedStates == old(nd.remoteSyncedStates) && M(nd) == old(M(nd))
+//@   modifies nd.remoteSyncedStates.remoteSyncedStates, nd.remoteSyncedStates.remoteSnapshotsApplying, alloftype(SnapApplyStatus)
+
+//@ extern (*github.com/youzan/ZanRedisDB/node.BatchInternalRaftRequest).Unmarshal func(m *BatchInternalRaftRequest, dAtA []byte) error
+//@   modifies m.ReqNum, m.Reqs, m.Timestamp, m.Type, m.ReqId, m.OrigTerm, m.OrigIndex, m.OrigCluster
+
+//@ interface (github.com/youzan/ZanRedisDB/pkg/wait.Wait).IsRegistered func(w wait.Wait, id uint64) bool
+//@ interface (github.com/youzan/ZanRedisDB/pkg/wait.Wait).Trigger func(w wait.Wait, id uint64, x interface{})
+
+// ghost(effects, sm): number of entries whose effect the state machine has applied.
+// Assumed (DESIGN.md C19 "T"): ApplyRaftRequest does not itself touch the synced-position table.
+//@ interface (github.com/youzan/ZanRedisDB/node.StateMachine).ApplyRaftRequest func(sm StateMachine, isReplaying bool, b IBatchOperator, req BatchInternalRaftRequest, term uint64, index uint64, stop chan struct{}) (bool, error)
+//@   ensures result1 == errIgnoredRemoteApply ==> ghost(effects, sm) == old(ghost(effects, sm))
+//@   ensures result1 != errIgnoredRemoteApply ==> ghost(effects, sm) == old(ghost(effects, sm)) + 1
+//@   modifies ghost(effects, sm)
+
+// C19 at the level of one applied raft entry:
+//  (1) the synced position of every source cluster never moves backwards,
+//  (2) it changes only together with an applied effect (a re-sent / stale entry changes nothing).
+//@ func (nd *KVNode) applyEntry(evnt raftpb.Entry, isReplaying bool, batch IBatchOperator) bool
+//@   requires ndOK(nd)
+//@   requires forall k string :: in(k, M(nd)) ==> M(nd)[k].SyncedIndex < 18446744073709551615
+//@   ensures forall k string :: old(in(k, M(nd))) ==> in(k, M(nd)) && (sameSS(M(nd)[k], old(M(nd)[k])) || (M(nd)[k].SyncedIndex > old(M(nd)[k]).SyncedIndex && M(nd)[k].SyncedTerm >= old(M(nd)[k]).SyncedTerm))
+//@   ensures ghost(effects, nd.sm) == old(ghost(effects, nd.sm)) ==> (forall k string :: (in(k, M(nd)) <==> old(in(k, M(nd)))) && sameSS(M(nd)[k], old(M(nd)[k])))
+//@   modifies *
+//@ loop 1
+//@   invariant nd.remoteSyncedStates == old(nd.remoteSyncedStates) && nd.rn == old(nd.rn) && nd.sm == old(nd.sm) && nd.w == old(nd.w)
+//@   invariant M(nd) == old(M(nd)) && (forall k string :: (in(k, M(nd)) <==> old(in(k, M(nd)))) && sameSS(M(nd)[k], old(M(nd)[k])))
+//@   invariant ghost(effects, nd.sm) == old(ghost(effects, nd.sm))
